@@ -318,13 +318,13 @@ def instances(tier, seed):
         fs += A[:5] + E[:2]
         d1 = [w for w in gen.depth1(theme) if w[0] in ("binary", "unary", "reduce", "stack", "cat", "lambda", "subs", "getitem", "getitem_at")]
         rng.shuffle(d1)
-        fs += d1[:40 if tier == "quick" else 300]
+        fs += d1[:40 if tier == "quick" else 200]
     from lang.prog import getitem_at, getitem, var, leaf
     for theme in ("real", "int"):
         A, E = gen.atoms(theme)
         fs += [getitem_at(E[1], var("gj", ("bint", 2)), 1), getitem_at(E[2], var("gj", ("bint", 3)), 1), getitem(E[1], var("gi", ("bint", 3))),
                getitem(E[4], leaf("ir2", (("i", 2), ("k", 2)), (), ("int", 2)))]
-    per_f = 8 if tier == "quick" else 40
+    per_f = 8 if tier == "quick" else 20
     for f in fs:
         for m in subst_maps(f, rng, per_f):
             p = subs(f, m)
